@@ -14,7 +14,7 @@ import numpy as np
 
 from ..poly import z3mod, Poly
 from ..dromodels import CompiledDRO, dro_viol, dro_hold, dro_row_terms, piece_polys
-from ..drogen import members, lookup
+from ..drogen import members, kl_members, lookup
 from ..smt import HarnessError, fval
 from ..harness import finding
 from ..util import quiet
@@ -44,7 +44,8 @@ META = dict(
 
 def cases(tier, seed, rnd):
     n = 12 if tier == 'quick' else 400
-    return [dict(name=n_) for n_ in members()] + [dict(name='rand%d' % rnd.randint(0, 10 ** 6)) for _ in range(n)]
+    return [dict(name=n_) for n_ in members()] + [dict(name=n_) for n_ in kl_members()] + \
+        [dict(name='rand%d' % rnd.randint(0, 10 ** 6)) for _ in range(n)]
 
 
 def run_case(case, ses):
@@ -77,6 +78,10 @@ def run_case(case, ses):
     rows = cm.rows()
     for row in rows:
         label = '%s/%s' % (name, row['label'])
+        if row['kind'] == 'E' and row['F'] is not None and cm.exp_prob(row['F']):
+            if not exp_row(ses, name, cm, blocks, row, label):
+                ok = False
+            continue
         env = cm.env(vs)
         vt = dro_viol(cm, row, env, z3, cache)
         kind = 'dro-' + row['kind']
@@ -100,13 +105,121 @@ def run_case(case, ses):
     layer_b(ses, name, cm, rows, cache)
 
 
+def row_values(cm, row, assign=None):
+    """Per group of the row: dict weight name -> list of piece polynomials (the integrand at that scenario and support
+    vertex), over interface names (or numbers when `assign` is given)."""
+    o = cm.o
+    names, sv, G, H, T, aux = cm._wp(row['F'])
+    groups, sense = piece_polys(row['cons'])
+    out = []
+    for g in groups:
+        val = {}
+        for s in range(o.ns):
+            inst = [cm.inst(p, s) for p in g]
+            for k, v in enumerate(sv[s]):
+                qs = [q.subs(v) for q in inst]
+                if assign is not None:
+                    qs = [q.subs(assign).constant() for q in qs]
+                val['w%d_%d' % (s, k)] = qs
+        out.append(val)
+    return out, sense
+
+
+def exp_row(ses, name, cm, blocks, row, label):
+    """Expectation row under a probability set with exponential-cone atoms (KL divergence, entropy).
+
+    Adversary system (2): weights w[s,k] on (scenario, support vertex) - Lemma J - split per piece of a piecewise
+    integrand, the probability set with p_s = sum_k w[s,k] (cone memberships weakened to consequences), expectation
+    sets.  Compiled block (1).  Coupling: pairing inequalities and  sum_w w * integrand(x) > 0.  Decided by
+    reformulation-linearisation (QF_LRA); see tv.rlt_refute."""
+    from ..tv import rlt_block
+    from ..poly import Poly
+    names, sv, G, H, T, aux = cm._wp(row['F'])
+    ren = {n: Poly.var('v%d' % j) for n, j in cm.iface.items()}
+    vals, sense = row_values(cm, row)
+    ok = True
+    for gi, val in enumerate(vals):
+        G2, H2, vars2 = list(G), list(H), list(names) + list(aux)
+        tot = Poly()
+        for wn, qs in val.items():
+            if len(qs) == 1:
+                tot = tot + Poly.var(wn) * qs[0].subs(ren)
+            else:
+                parts = []
+                for j, q in enumerate(qs):
+                    nm = '%s_p%d' % (wn, j)
+                    parts.append(nm)
+                    G2.append(Poly.var(nm))
+                    tot = tot + Poly.var(nm) * q.subs(ren)
+                H2.append(Poly.var(wn) - sum((Poly.var(n) for n in parts), Poly()))
+                vars2 += parts
+        viol = [tot] if sense == 'le' else [tot, -tot]
+        done = False
+        for blk in blocks:
+            if not blk.get('xcones'):
+                continue
+            r = rlt_block(ses, cm.cp, blk, G2, H2, T, vars2, viol, '%s.g%d' % (label, gi), 'dro-E-expset',
+                          sample=dict(model=name, row=row['label'], weights=len(names)),
+                          timeout_ms=(30000 if ses.tier == 'quick' else 120000))
+            if r == 'unsat':
+                done = True
+                break
+        if not done:
+            ok = False
+            data = numeric_kl_cex(name, cm, row)
+            ses.stats.obligations += 1
+            ses.stats.kinds['dro-E-expset'] = ses.stats.kinds.get('dro-E-expset', 0) + 1
+            if data is not None:
+                good, info = replay(data, want_info=True)
+                if good:
+                    finding(ses, 'C03:%s:%s' % (name, row['label']),
+                            'dro model %s row %s: a compiled-feasible point is unsafe: %s' % (name, row['label'], info.get('what')),
+                            data, 'rsv.props.c03:replay')
+                    continue
+            ses.stats.undecided += 1
+            ses.stats.notes.append('undecided: %s.g%d (exp-cone probability set; linearised system satisfiable)' % (label, gi))
+    return ok
+
+
+def numeric_kl_cex(name, cm, row, tries=10):
+    """Real solver points of the real compiled program (several objectives) with the numerically worst distribution of
+    the TRUE set: a candidate counterexample for replay."""
+    import random
+    from rsome.gcp import GCProg
+    from rsome import eco_solver
+    f = cm.formula
+    rnd = random.Random(5)
+    cols = sorted(set(cm.iface.values()))
+    for k in range(tries):
+        obj = np.array(f.obj, dtype=float).reshape(-1).copy()
+        if k:
+            for c in cols:
+                obj[c] = rnd.choice([-1, 1, 0.5, -0.5, 0, 2, -2])
+        g = GCProg(f.linear, f.const, f.sense, f.vtype, f.ub, f.lb, f.qmat, f.xmat, [], obj)
+        with quiet():
+            try:
+                sol = eco_solver.solve(g, display=False)
+            except Exception:
+                continue
+        if sol is None or sol.x is None:
+            continue
+        data = dict(name=name, row=row['label'], v=[float(t) for t in sol.x], tol='1/1000000')
+        if replay(data):
+            return data
+    return None
+
+
 def layer_b(ses, name, cm, rows, cache):
     """The point returned by the real solve(): is there a distribution in W (weights symbolic) that
     makes a row fail by more than tol?"""
     z3 = z3mod()
     with quiet():
         try:
-            cm.r.m.solve(display=False)
+            if cm.cp.xmat or cm.cp.qmat:
+                from rsome import eco_solver
+                cm.r.m.solve(eco_solver, display=False)
+            else:
+                cm.r.m.solve(display=False)
             val = cm.r.m.get()
         except Exception as e:
             ses.stats.notes.append('%s: solve failed: %s' % (name, str(e)[:80]))
@@ -118,6 +231,20 @@ def layer_b(ses, name, cm, rows, cache):
         if row['kind'] != 'E':
             continue
         F = row['F']
+        if cm.exp_prob(F):
+            # exp is uninterpreted in the encodings: the solver's point is examined numerically (worst distribution of
+            # the true set by maximisation); only a reproduced violation is reported
+            data = dict(name=name, row=row['label'], v=[float(t) for t in x], tol='1/100000')
+            good, info = replay(data, want_info=True, margin=Fraction(1, 10 ** 5) * (1 + abs(Fraction(float(val)))))
+            ses.stats.obligations += 1
+            ses.stats.kinds['solver-point-numeric'] = ses.stats.kinds.get('solver-point-numeric', 0) + 1
+            if good:
+                finding(ses, 'C03:%s:%s' % (name, row['label']),
+                        'dro model %s: the solution returned by solve() is unsafe: %s' % (name, info.get('what')),
+                        data, 'rsv.props.c03:replay')
+            else:
+                ses.stats.discharged += 1
+            continue
         if F not in cache:
             cache[F] = cm.weights(F)
         names, sv, wverts, (ineq, eq) = cache[F]
@@ -151,7 +278,7 @@ def layer_b(ses, name, cm, rows, cache):
                     raise HarnessError('C03 solver-point counterexample does not reproduce: %s' % name)
 
 
-def replay(data, verbose=False, want_info=False):
+def replay(data, verbose=False, want_info=False, margin=None):
     """The point is accepted by the real compiled program (exact check) and, with the decisions read
     from it, an explicit distribution of the ambiguity set (a vertex of W) or a scenario/realisation
     violates the row (evaluated with exact rationals from the oracle and listed)."""
@@ -160,7 +287,7 @@ def replay(data, verbose=False, want_info=False):
         cm = CompiledDRO(lookup(name))
     v = data['v']
     info = {}
-    bad = cm.cp.check_point(v, tol=Fraction(1, 10 ** 7))
+    bad = cm.cp.check_point(v, tol=(Fraction(data['tol']) if data.get('tol') else Fraction(1, 10 ** 7)))
     if bad:
         info['what'] = 'point rejected by the real program: %s' % bad[:2]
         if verbose:
@@ -185,6 +312,17 @@ def replay(data, verbose=False, want_info=False):
                         val = abs(val) if sense == 'eq' else val
                         if worst is None or val > worst:
                             worst, wdesc = val, 'scenario %d, z=%s' % (s, {k: float(t) for k, t in vert.items()})
+    elif cm.exp_prob(row['F']):
+        fa = {n: float(t) for n, t in assign.items()}
+        vals, _ = row_values(cm, row, assign)
+        for val in vals:
+            num = {wn: float(max(qs)) for wn, qs in val.items()}
+            for sgn in ((1, -1) if sense == 'eq' else (1,)):
+                best = cm.worst_distribution(row['F'], {k: sgn * t for k, t in num.items()})
+                if best is not None and (worst is None or best[0] > worst):
+                    worst = Fraction(best[0])
+                    wdesc = 'distribution %s (weights on scenario/support-vertex pairs; in the set: %s)' % (
+                        {k: round(t, 6) for k, t in best[1].items() if t > 1e-9}, cm.prob_contains(row['F'], best[1]))
     else:
         names, sv, wverts, _ = cm.weights(row['F'])
         for g in groups:
@@ -203,5 +341,6 @@ def replay(data, verbose=False, want_info=False):
     info['what'] = 'row value %.6g > 0 at %s' % (float(worst), wdesc)
     if verbose:
         print('dro model %s row %s: compiled program accepts the point; %s' % (name, data['row'], info['what']))
-    ok = worst is not None and worst > Fraction(1, 10 ** 6)
+    margin = Fraction(data['margin']) if data.get('margin') else (margin or Fraction(1, 10 ** 6))
+    ok = worst is not None and worst > margin
     return (ok, info) if want_info else ok
